@@ -74,6 +74,14 @@ func (v *VerifWS) Call(cache int) []VerifResult {
 	return v.drain()
 }
 
+// CallCtx is Call with a caller-supplied context (the harness cancels it from inside a scripted List to observe
+// the cache in its polling steady state) and clears the resync throttle first.
+func (v *VerifWS) CallCtx(ctx context.Context, cache int) []VerifResult {
+	v.ws.watcherCaches[cache].resyncBlockedUntil = time.Now()
+	v.ws.watcherCaches[cache].resyncAndLoopReadingFromWatcher(ctx)
+	return v.drain()
+}
+
 // StopCache runs what watcherCache.run defers at shutdown.
 func (v *VerifWS) StopCache(cache int) []VerifResult {
 	v.ws.watcherCaches[cache].sendDeletionsForAllResources()
